@@ -480,3 +480,107 @@ def to_cfg_wf(run):
                        replay=dict(replayed=False, problems=bad, hint="WFSA.from_string('ab', Float).to_cfg()('ab')"), signature="to_cfg:N-V-clash")
     else:
         run.obligation(name, "proved", backend="pyvc", detail="states named like an alphabet symbol or like S are renamed (fresh) consistently in both recursion directions")
+
+
+def pruned_compose(run):
+    """C10/fst.FST._pruned_compose/product-step (auxiliary): one generic iteration of the on-the-fly product with keep = True:
+    initial pairs get w1*w2, a popped pair (P,Q) that is final in both machines gets stop[P]*stop[Q], every matching arc pair
+    (a:b, P', w1) x (b:c, Q', w2) yields exactly one arc (P,Q) -(a:c)-> (P',Q') with weight w1*w2, and a pair is pushed only if unvisited."""
+    name = "C10/fst.FST._pruned_compose/product-step"
+    fn = source.find(FSTF, "FST._pruned_compose")
+    run.function_under_contract("genlm.grammar.fst.FST._pruned_compose", source.sha(fn))
+    P0, Q0, P1, Q1, Pn, Qn = (S.sym(n) for n in ("P0", "Q0", "P", "Q", "Pn", "Qn"))
+    a, b, c = S.sym("a"), S.sym("b"), S.sym("c")
+    wi1, wi2, w1, w2, f1, f2 = (I.Z(z3.Const(n, G.W)) for n in ("wi1", "wi2", "w1", "w2", "f1", "f2"))
+
+    def harness(path):
+        it = I.Interp(path, uf=G.UF)
+        m = Machine()
+        final_P = S.fresh("P_final", z3.BoolSort())
+        final_Q = S.fresh("Q_final", z3.BoolSort())
+
+        class Stop:
+            def __init__(self, flag, w):
+                self.flag, self.w = flag, w
+
+            def __pyvc_contains__(self, interp, x):
+                return I.Z(self.flag)
+
+            def __pyvc_getitem__(self, interp, k, node):
+                return self.w
+
+        popped = {}
+
+        class Stack:
+            def __init__(self):
+                self.items = []
+                self.n = 0
+
+            def __pyvc_truth__(self, interp):
+                self.n += 1
+                return self.n == 1         # loop cut: one generic iteration
+
+            def __pyvc_getattr__(self, interp, nm, node):
+                if nm == "append":
+                    return I.Native("append", lambda i2, x, k: self.items.append(x[0]))
+                if nm == "pop":
+                    return I.Native("pop", lambda i2, x, k: (P1, Q1))     # an arbitrary visited pair
+                raise I.OutOfSubset("stack." + nm)
+
+        stack = Stack()
+        it.assign_hooks["stack"] = lambda i2, v: stack
+        visited_new = S.fresh("target_already_visited", z3.BoolSort())
+
+        class Visited:
+            def __init__(self):
+                self.added = []
+
+            def __pyvc_contains__(self, interp, x):
+                return I.Z(visited_new)
+
+            def __pyvc_getattr__(self, interp, nm, node):
+                if nm == "add":
+                    return I.Native("add", lambda i2, x, k: self.added.append(x[0]))
+                raise I.OutOfSubset("visited." + nm)
+
+        vis = Visited()
+        it.assign_hooks["visited"] = lambda i2, v: vis
+
+        class Tmp:
+            def __pyvc_getitem__(self, interp, k, node):
+                return [(c, Qn, w2)]
+
+        it.assign_hooks["tmp"] = lambda i2, v: Tmp()
+        other = Bag(I=[(Q0, wi2)], stop=Stop(final_Q, f2), arcs=I.Native("arcs", lambda i2, x, k: []))
+        selfobj = Bag(R=Bag(), I=[(P0, wi1)], stop=Stop(final_P, f1), arcs=I.Native("arcs", lambda i2, x, k: [((a, b), Pn, w1)] if x else []))
+        g = {"FST": I.Native("FST", lambda i2, x, k: m), "EPSILON": "", "defaultdict": I.Native("defaultdict", lambda i2, x, k: {})}
+        path.assume(b.e != I.zexpr(""))        # the filter guarantees no bare epsilon on the shared tape (the code asserts it)
+        fobj = I.FuncObj(fn, I.Env(None, g), "FST._pruned_compose")
+        ret = it.call_func(fobj, [selfobj, other, I.Native("keep", lambda i2, x, k: True), I.Native("keep_arc", lambda i2, x, k: True)], {})
+        if ret is not m:
+            raise I.OutOfSubset("does not return the machine it builds")
+        m.ctx = dict(final_P=final_P, final_Q=final_Q, pushed=list(stack.items), visited_added=list(vis.added), visited_new=visited_new)
+        return m
+
+    try:
+        results = I.explore(harness)
+    except (I.OutOfSubset, I.PyRaise) as e:
+        run.obligation(name, "out-of-subset", role="auxiliary", detail=str(e))
+        return
+    ok, why = True, ""
+    for path, m in results:
+        cx = m.ctx
+        okI, whyI = _multiset_equal(m.I, [((P0, Q0), I.Z(G.wmul(wi1.e, wi2.e)))])
+        both = smt.prove(list(path.pc), z3.And(cx["final_P"], cx["final_Q"]))["verdict"] == "proved"
+        okF, whyF = _multiset_equal(m.F, [((P1, Q1), I.Z(G.wmul(f1.e, f2.e)))] if both else [])
+        okA, whyA = _multiset_equal(m.arcs, [((P1, Q1), (a, c), (Pn, Qn), I.Z(G.wmul(w1.e, w2.e)))])
+        seen = smt.prove(list(path.pc), cx["visited_new"])["verdict"] == "proved"
+        pushed_new = [x for x in cx["pushed"] if isinstance(x, tuple) and x[0] is Pn]
+        okP = (len(pushed_new) == 0) if seen else (len(pushed_new) == 1 and any(x[0] is Pn for x in cx["visited_added"]))
+        if not (okI and okF and okA and okP):
+            ok = False
+            why = f"initial={okI} final={okF} arcs={okA} pushed-once={okP}: {whyI or whyF or whyA}"
+    if ok and results:
+        run.obligation(name, "proved", role="auxiliary", backend="pyvc+z3", detail=f"{len(results)} paths: product initial/final weights, one arc per matching arc pair with weight w1*w2, targets pushed only when unvisited")
+    else:
+        run.obligation(name, "refuted", role="auxiliary", backend="pyvc+z3", detail=why or "no path", replay=dict(replayed=False, why=why), signature="_pruned_compose:product-step")
